@@ -171,8 +171,19 @@ class Flow:
             return ("field", e, p["n"], p["i"], p.get("bt"))
         if k == "index":
             idx = self.local(p["l"], at, depth + 1, seen)
-            return ("index", e, idx[0] if idx else ("unknown", "idx"))
+            i0 = idx[0] if idx else ("unknown", "idx")
+            if e[0] == "repeat":
+                return e[1]                       # `[x; N][i]` is x
+            if e[0] == "agg" and e[1][0] == "array" and len(idx) == 1:
+                iv = fold(i0)
+                if isinstance(iv, int) and 0 <= iv < len(e[2]):
+                    return e[2][iv]
+            return ("index", e, i0)
         if k == "cindex":
+            if e[0] == "repeat":
+                return e[1]
+            if e[0] == "agg" and e[1][0] == "array" and 0 <= p["i"] < len(e[2]) and not p.get("from_end"):
+                return e[2][p["i"]]
             return ("cindex", e, p["i"])
         if k == "downcast":
             return ("downcast", e, p["v"])
